@@ -311,23 +311,28 @@ Proof. destruct v6; reflexivity. Qed.
 Lemma vpn_afi_small v6 : vpn_afi v6 < 65536.
 Proof. destruct v6; reflexivity. Qed.
 
-Theorem reachvpn_block c v6 asn an ip rs b : forallb vroute_ok rs = true ->
-  reachvpn_construct v6 asn an ip rs = Ok b -> attr_block c c_ATTR_MpReachNLRI_ID b.
+(** routes of family [v6], next hop of version [nh6]: 8 + 4 or 8 + 16 octets, both accepted for
+    both families (RFC 4364 / 4659 / 8950) *)
+Theorem reachvpn_block_x c v6 nh6 asn an ip rs b : forallb vroute_ok rs = true ->
+  reachvpn_construct_x v6 nh6 asn an ip rs = Ok b -> attr_block c c_ATTR_MpReachNLRI_ID b.
 Proof.
-  intros G. unfold reachvpn_construct. intros H.
+  intros G. unfold reachvpn_construct_x. intros H.
   apply mbind_ok in H as (nh & Hnh & H). apply mbind_ok in H as (nlri & Hn & H).
   destruct (construct_vpn_valid v6 false rs nlri Hn (fun _ => G)) as [V W].
-  unfold construct_vpn_nexthop in Hnh. destruct ((65535 <? asn) || (2 ^ 32 <=? an)); [discriminate|].
+  unfold construct_vpn_nexthop_x in Hnh. destruct ((65535 <? asn) || (2 ^ 32 <=? an)); [discriminate|].
   apply mOk_inj in Hnh.
-  assert (Lnh : len nh = if v6 then 24 else 12).
-  { subst nh. destruct v6; rewrite !len_app, !len_be; reflexivity. }
+  assert (Lnh : len nh = if nh6 then 24 else 12).
+  { subst nh. destruct nh6; rewrite !len_app, !len_be; reflexivity. }
   assert (Wnh : wf_bytes nh).
   { subst nh. cbn [app]. apply wf_cons; split; [lia|]. apply wf_cons; split; [lia|].
-    repeat (apply wf_app; split); try apply wf_be. destruct v6; apply wf_be. }
+    repeat (apply wf_app; split); try apply wf_be. destruct nh6; apply wf_be. }
   eapply reach_attr_block; [exact H | apply vpn_afi_small | reflexivity | exact Wnh | exact W | | ].
-  - rewrite family_vpn, Lnh. destruct v6; reflexivity.
+  - rewrite family_vpn, Lnh. destruct nh6; reflexivity.
   - rewrite family_vpn. exact V.
 Qed.
+Theorem reachvpn_block c v6 asn an ip rs b : forallb vroute_ok rs = true ->
+  reachvpn_construct v6 asn an ip rs = Ok b -> attr_block c c_ATTR_MpReachNLRI_ID b.
+Proof. exact (reachvpn_block_x c v6 v6 asn an ip rs b). Qed.
 
 Theorem unreachvpn_block c v6 rs b :
   unreachvpn_construct v6 rs = Ok (Some b) -> attr_block c c_ATTR_MpUnReachNLRI_ID b.
@@ -415,17 +420,20 @@ Proof.
     + apply IH. intros e0 H0. apply He. right. exact H0.
 Qed.
 
-Theorem reachlu_block c v6 ip rs b : forallb lroute_ok rs = true ->
-  reachlu_construct v6 ip rs = Ok (Some b) -> attr_block c c_ATTR_MpReachNLRI_ID b.
+Theorem reachlu_block_x c v6 nh6 ip rs b : forallb lroute_ok rs = true ->
+  reachlu_construct_x v6 nh6 ip rs = Ok (Some b) -> attr_block c c_ATTR_MpReachNLRI_ID b.
 Proof.
-  intros G. unfold reachlu_construct. intros H. apply mbind_ok in H as (nlri & Hn & H).
+  intros G. unfold reachlu_construct_x. intros H. apply mbind_ok in H as (nlri & Hn & H).
   destruct (construct_lu_valid v6 false rs nlri Hn (fun _ => G)) as [V W].
   destruct nlri as [|x nl]; [discriminate|].
   apply mbind_ok in H as (b' & H & Hb). apply mOk_inj in Hb. injection Hb as <-.
-  eapply reach_attr_block; [exact H | apply vpn_afi_small | reflexivity | destruct v6; apply wf_be | exact W | |].
-  - rewrite family_lu. destruct v6; rewrite len_be; reflexivity.
+  eapply reach_attr_block; [exact H | apply vpn_afi_small | reflexivity | destruct nh6; apply wf_be | exact W | |].
+  - rewrite family_lu. destruct nh6; rewrite len_be; reflexivity.
   - rewrite family_lu. exact V.
 Qed.
+Theorem reachlu_block c v6 ip rs b : forallb lroute_ok rs = true ->
+  reachlu_construct v6 ip rs = Ok (Some b) -> attr_block c c_ATTR_MpReachNLRI_ID b.
+Proof. exact (reachlu_block_x c v6 v6 ip rs b). Qed.
 
 Theorem unreachlu_block c v6 rs b :
   unreachlu_construct v6 rs = Ok (Some b) -> attr_block c c_ATTR_MpUnReachNLRI_ID b.
@@ -481,6 +489,9 @@ Lemma reachvpn_example : exists b,
   reachvpn_construct false 0 0 167772161 ex_vroutes = Ok b /\ forallb vroute_ok ex_vroutes = true /\
   len b = 68 /\ valid_attrs cfg0 b = true.
 Proof. eexists. split; [vm_compute; reflexivity|]. repeat split; vm_compute; reflexivity. Qed.
+Lemma reachvpn_nh6_example : exists b,
+  reachvpn_construct_x false true 0 0 (2 ^ 125 + 1) ex_vroutes = Ok b /\ len b = 80 /\ valid_attrs cfg0 b = true.
+Proof. eexists. split; [vm_compute; reflexivity|]. split; vm_compute; reflexivity. Qed.
 Lemma unreachvpn_example : exists b,
   unreachvpn_construct true [mk_vroute [] (RdAs 100 100) (2 ^ 125) 61] = Ok (Some b) /\ valid_attrs cfg0 b = true.
 Proof. eexists. split; vm_compute; reflexivity. Qed.
@@ -516,15 +527,15 @@ Lemma mp_ipv6_valid c rs : routes6_ok rs = true ->
   (forall b, unreach6u_construct rs = Ok (Some b) -> attr_block c c_ATTR_MpUnReachNLRI_ID b).
 Proof. intros H. split; intros; [eapply reach6u_block | eapply unreach6u_block]; eassumption. Qed.
 Lemma mp_vpn_valid c v6 rs :
-  (forallb vroute_ok rs = true -> forall asn an ip b,
-     reachvpn_construct v6 asn an ip rs = Ok b -> attr_block c c_ATTR_MpReachNLRI_ID b) /\
+  (forallb vroute_ok rs = true -> forall nh6 asn an ip b,
+     reachvpn_construct_x v6 nh6 asn an ip rs = Ok b -> attr_block c c_ATTR_MpReachNLRI_ID b) /\
   (forall b, unreachvpn_construct v6 rs = Ok (Some b) -> attr_block c c_ATTR_MpUnReachNLRI_ID b).
-Proof. split; intros; [eapply reachvpn_block | eapply unreachvpn_block]; eassumption. Qed.
+Proof. split; intros; [eapply reachvpn_block_x | eapply unreachvpn_block]; eassumption. Qed.
 Lemma mp_lu_valid c v6 rs :
-  (forallb lroute_ok rs = true -> forall ip b,
-     reachlu_construct v6 ip rs = Ok (Some b) -> attr_block c c_ATTR_MpReachNLRI_ID b) /\
+  (forallb lroute_ok rs = true -> forall nh6 ip b,
+     reachlu_construct_x v6 nh6 ip rs = Ok (Some b) -> attr_block c c_ATTR_MpReachNLRI_ID b) /\
   (forall b, unreachlu_construct v6 rs = Ok (Some b) -> attr_block c c_ATTR_MpUnReachNLRI_ID b).
-Proof. split; intros; [eapply reachlu_block | eapply unreachlu_block]; eassumption. Qed.
+Proof. split; intros; [eapply reachlu_block_x | eapply unreachlu_block]; eassumption. Qed.
 Lemma mp_label0_refuted :
   (exists b, reachvpn_construct false 0 0 167772161 [mk_vroute [0] (RdAs 100 1) 167772160 8] = Ok b /\
              valid_attrs cfg0 b = false) /\
